@@ -8,6 +8,8 @@ GNullEnd  == G(4, 0, 3, {<<0,1,"a",0>>, <<1,2,"",0>>, <<2,3,"",-1>>})
 GShared   == G(4, 0, 3, {<<0,1,"a",-1>>, <<0,2,"a",-1>>, <<1,3,"b",0>>, <<2,3,"c",0>>})
 GNullStart == G(3, 0, 2, {<<0,1,"",0>>, <<1,2,"a",0>>, <<0,2,"b",-1>>})
 DeltasMC == {0, -1}
+Deltas0 == {0}
+FamilyTie == {GShared}
 FamilyQ == {GLoop, GShared, GNullStart, GOptional}
 FamilyL == {GLinear, GOptional, GLoop, GShared, GNullStart, GNullEnd}
 =============================================================================
